@@ -37,7 +37,24 @@ def bad_item(kind, rng, nt, bo, tail):
     if kind == 'rank':
         return nd_spec(small_values(rng, (2,) + t + (2,), own))
     if kind == 'unconv':
-        return dict(kind=rng.choice(['obj', 'str', 'ragged']))
+        k = rng.choice(['obj', 'str', 'ragged', 'numlist', 'numlist'])
+        if k == 'numlist':
+            # a LIST holding a number NumPy refuses to convert to the array's type
+            import numpy as _np
+            dk = _np.dtype(nt).kind
+            if dk in 'iu':
+                v = rng.choice([float('nan'), float('inf'), 2 ** 70, -(2 ** 70)] + ([-1] if dk == 'u' else []))
+            elif dk == 'f':
+                v = 1 + 2j
+            else:
+                return dict(kind='str')
+            row = v
+            for _ in t:
+                row = [row]
+            def shaped(val, dims):
+                return val if not dims else [shaped(val, dims[1:]) for _ in range(dims[0])]
+            return dict(kind='pylist', value=repr([shaped(v, list(t))]))
+        return dict(kind=k)
     raise ValueError(kind)
 
 
